@@ -50,6 +50,7 @@ def write(prop, tier, vseed, meta, mg, det, workers, wall, *, n_violation_classe
         "replays_written": replays,
         "stopped_at_deadline": bool(mg.get("stopped_at_deadline")),
         "harness_errors": len(mg["harness_errors"]),
+        "engine_extra": meta.get("extra", {}),
     }
     ev = {
         "property_id": prop,
